@@ -220,6 +220,13 @@ def run(ctx) -> Report:
         ("f*(1+2j)", uflmodel.m_product(f, complex_literal(1 + 2j)), False),
         ("f*imag(f)", uflmodel.m_product(f, cm["Imag"](f)), False),
     ]
+    # generated: complex nodes at every depth <= 3 below every kind of node the pass meets
+    g_ = terminal("g", (), "Coefficient")
+    inner_kinds = [("f", f, True), ("real(f)", cm["Real"](f), True), ("conj(f)", cm["Conj"](f), True), ("imag(f)", cm["Imag"](f), False), ("1j", complex_literal(1j), False)]
+    middles = [("(.)*g", lambda a: uflmodel.m_product(a, g_)), ("(.) + g", lambda a: uflmodel.m_sum(a, g_)), ("sin(.)", lambda a: cm["Sin"](a)), ("g/(.)", lambda a: uflmodel.m_division(g_, a)), ("as_vector([., g])[1]", lambda a: corpus.idx(uflmodel.m_list_tensor(a, g_), 1))]
+    outers = [("conj(.)", cm["Conj"]), ("real(.)", cm["Real"]), ("(.)*f", lambda a: uflmodel.m_product(a, f)), ("abs(.)", cm["Abs"]), ("conditional(f<g, ., g)", lambda a: uflmodel.m_conditional(uflmodel.m_rel("<")(cm["Real"](f), cm["Real"](g_)), a, g_))]
+    for (do, fo), (dm, fm), (di, ei, ok_i) in itertools.product(outers, middles, inner_kinds):
+        cases.append((do.replace(".", dm.replace(".", di)), fo(fm(ei)), ok_i))
     for desc, e, ok_expected in cases:
         H = PassHarness(ctx, RMV)
         try:
@@ -257,7 +264,7 @@ def run(ctx) -> Report:
         rep.violation("C23-pipe", pf, "do_comparison_check", "preprocess_form no longer runs the comparison check in complex mode")
     rep.require_min("C23-closed", 100)
     rep.require_min("C23-wrap", 60)
-    rep.require_min("C23-real", 6)
+    rep.require_min("C23-real", 100)
     rep.require_min("C23-pipe", 3)
     rep.counts.update(accepted=n_acc, rejected=n_rej)
     rep.explanation = (
